@@ -51,10 +51,10 @@ func (t *Trace) Class(name string) {
 	}
 	t.classes[name]++
 }
-func (t *Trace) NonTrivial()            { t.nontrivial = true }
+func (t *Trace) NonTrivial() { t.nontrivial = true }
 
 // Known notes that the run met a violation listed as a known finding and went on.
-func (t *Trace) Known(id string) { t.known = append(t.known, id) }
+func (t *Trace) Known(id string)        { t.known = append(t.known, id) }
 func (t *Trace) IsNonTrivial() bool     { return t.nontrivial }
 func (t *Trace) Has(class string) bool  { return t.classes[class] > 0 }
 func (t *Trace) Count(class string) int { return t.classes[class] }
